@@ -67,6 +67,7 @@ func c04CfContract(r *Report, p *Prog) {
 				case *ssa.FieldAddr:
 					if recv[x.X] {
 						name := x.X.Type().Underlying().(*types.Pointer).Elem().Underlying().(*types.Struct).Field(x.Field).Name()
+						name = p.canonField("SM3", name, nil) // the chaining value, whatever the field is called
 						fields[name] = true
 						if name != "h" {
 							bad = append(bad, fmt.Sprintf("field %s of the hash state is accessed at %s", name, p.InstrPos(x)))
